@@ -28,7 +28,7 @@ from pyvc.concretize import Decoder  # noqa: E402
 from pyvc.contracts import REG, Contract, verify_function  # noqa: E402
 from pyvc.source import Repo  # noqa: E402
 
-CONTRACT_MODULES = ["contracts.validation", "contracts.declaration", "contracts.formatting", "contracts.generation"]
+CONTRACT_MODULES = ["contracts.validation", "contracts.declaration", "contracts.formatting", "contracts.generation", "contracts.substitution"]
 NATIVE_PY = os.environ.get("PYVC_NATIVE_PY", "/venv/bin/python")
 REPLAY_DIR = os.path.join(HERE, "replays")
 EVID_DIR = os.path.join(HERE, "evidence")
@@ -204,7 +204,10 @@ def try_replays(ex, ct, con: Contract, fr, ob, v, prop: str) -> List[Dict[str, A
     for attempt in range(MAX_CANDIDATES):
         dec = Decoder(model, ct, ph=z3.Const("ph0", z3.ArraySort(M.Obj, M.SeqObj)))
         decoded = {k: dec.decode(z) for k, z in inputs.items()}
-        spec = {"property": prop, "oracle": prop, "obligation": ob.name,
+        # the native oracle is that of the clause's primary property (e.g. a Validator verdict clause
+        # re-proved for C05 is replayed with the C02 oracle: it is C02's statement that fails first)
+        oracle = ob.prop_ids[0] if (ob.prop_ids and prop not in ob.prop_ids[:1]) else prop
+        spec = {"property": prop, "oracle": oracle, "obligation": ob.name,
                 "function": f"{con.relpath}:{con.qualname}", "source_sha256": fr.sha256,
                 "clause": ob.text, "solver": v.backend, "solver_output": v.solver_output or v.status,
                 "inputs": decoded, "meta": dict(ob.meta or {}), "kind": ob.kind}
@@ -247,7 +250,7 @@ def run_check(prop: str, tier: str) -> int:
     if not cons and not any(prop in l.props for l in REG.lemmas.values()):
         print(f"ERROR no contracts registered for {prop}")
         return 3
-    known = [k for k in load_known() if k["property"] == prop]
+    known = [k for k in load_known() if k["property"] == prop or prop in k.get("also", [])]
     # known findings: replay each witness; a region is active only while its witness still fails
     active_regions: List[str] = []
     known_lines: List[str] = []
@@ -313,7 +316,8 @@ def run_check(prop: str, tier: str) -> int:
             if not confirmed and v["status"] in (solve.REFUTED, solve.CANDIDATE) and res["relpath"] != "<lemma>":
                 # refutation fallback: one bounded native search per function
                 if fkey not in search_cache:
-                    sp = {"oracle": prop, "function": f"{res['relpath']}:{res['qualname']}",
+                    sp = {"oracle": (reps[0].get("oracle") if reps else prop) or prop,
+                          "function": f"{res['relpath']}:{res['qualname']}",
                           "meta": (reps[0].get("meta") if reps else {}) or {}}
                     search_cache[fkey] = native_search(sp)
                     searches.append({"function": sp["function"], "found": search_cache[fkey].get("found"),
